@@ -80,19 +80,39 @@ static __always_inline int token_bucket_check(struct token_bucket *tb, __u32 pkt
 	/* Calculate elapsed time since last update */
 	elapsed_ns = now - tb->last_update;
 
-	/* Calculate new tokens to add (rate_bps / 8 = bytes per second) */
-	/* tokens = elapsed_ns * (rate_bps / 8) / 1e9 */
-	/* Simplified: tokens = elapsed_ns * rate_bps / 8e9 */
-	new_tokens = (elapsed_ns * (tb->rate_bps / 8)) / 1000000000ULL;
+	/* rate_bps / 8 = bytes per second; below one byte per second nothing accrues */
+	__u64 bytes_per_sec = tb->rate_bps / 8;
+	if (bytes_per_sec == 0)
+		goto check;
 
-	/* Add tokens, capped at burst size */
-	tb->tokens += new_tokens;
-	if (tb->tokens > tb->burst_bytes)
+	/* Time that fills an empty bucket. Beyond it the bucket is simply full
+	 * (this also keeps elapsed_ns * bytes_per_sec below 2^64). */
+	__u64 fill_ns = ((__u64)tb->burst_bytes * 1000000000ULL) / bytes_per_sec + 1;
+	if (elapsed_ns >= fill_ns || tb->tokens >= tb->burst_bytes) {
+		/* A full bucket accrues nothing, not even a fraction of a byte */
 		tb->tokens = tb->burst_bytes;
+		tb->last_update = now;
+		goto check;
+	}
 
-	/* Update timestamp */
-	tb->last_update = now;
+	/* tokens = elapsed_ns * bytes_per_sec / 1e9 */
+	new_tokens = (elapsed_ns * bytes_per_sec) / 1000000000ULL;
+	if (new_tokens > 0) {
+		tb->tokens += new_tokens;
+		if (tb->tokens >= tb->burst_bytes) {
+			/* Full: credit beyond the burst is lost */
+			tb->tokens = tb->burst_bytes;
+			tb->last_update = now;
+		} else {
+			/* Advance only by the time that paid for the whole tokens added,
+			 * so the fractional remainder keeps accruing. Updating the
+			 * timestamp on every packet starved sources that retry more
+			 * often than one byte-time. */
+			tb->last_update += (new_tokens * 1000000000ULL + bytes_per_sec - 1) / bytes_per_sec;
+		}
+	}
 
+check:
 	/* Check if we have enough tokens for this packet */
 	tokens_needed = pkt_len;
 	if (tb->tokens >= tokens_needed) {
